@@ -107,7 +107,8 @@ def match_f45(f: Failure) -> bool:
     return bool(bad) and all(any(b.endswith(sx) for sx in sufs) for b in bad)
 
 
-MATCHERS = {"F45-osm-tag-itext": match_f45}
+# F45 (osm tags with translated labels) is repaired (eb9b6f4): no matcher, a recurrence is a VIOLATION.
+MATCHERS = {}
 
 
 # ------------------------------------------------------------------------------ one case
@@ -195,11 +196,7 @@ def one_case(ctx, case, tag="gen"):
                 ctx.mismatch("guard wf (no empty dict in a translatable slot, unique bind-message keys) is false "
                              "on a builder output", case, "built survey", g)
             ctx.count("guard:choicesLabeled-" + str(g["choicesLabeled"]).lower())
-            ctx.count("guard:tagsPlain-" + str(g["tagsPlain"]).lower())
-            if g["tagsPlain"] != (not osm_translated_tag_suffixes(form)):
-                ctx.mismatch("F45 shape on the sheets vs guard tagsPlain on the built survey", case,
-                             sorted(osm_translated_tag_suffixes(form)), g)
-            if g["wf"] and g["tagsPlain"] and not model["holds"]["ok"]:
+            if g["wf"] and not model["holds"]["ok"]:
                 raise vcore.Infra("theorem holds_out contradicted by the driver: " + str(model["holds"]))
             if g["choicesLabeled"] != (not (unlabeled_itext_choices(form))):
                 ctx.mismatch("F6 shape on the sheet vs guard choicesLabeled on the built survey", case,
@@ -290,7 +287,7 @@ def directed_cases(rng):
                 else:
                     kw["default_language"] = dl
                 out.append({"form": form, "kw": kw})
-    # F45: osm question whose tags have translated labels (tags are not visited by _setup_translations)
+    # F45 (repaired, must stay repaired): osm question whose tags have translated labels
     for tagcols in (["label::en", "label::fr"], ["label::en"], ["label"]):
         tags = []
         for i, nm in enumerate(["name", "addr"]):
@@ -350,7 +347,6 @@ def explore(ctx, factor, bs):
         "wf_false_inputs": ctx.dist.get("guard:wf-false", 0),
         "choicesLabeled_false_inputs (F6 shape, repaired: padded)": ctx.dist.get("guard:choicesLabeled-false", 0),
         "choicesLabeled_true_inputs": ctx.dist.get("guard:choicesLabeled-true", 0),
-        "tagsPlain_false_inputs (F45 shape, open finding)": ctx.dist.get("guard:tagsPlain-false", 0),
     }
 
 
